@@ -24,6 +24,16 @@ claimed = {
  'C18': ("loop invariant over a ghost entropy stream: result is the first block with non-zero residue, reduced; read failure is the only panic", "4 C18"),
  'C19': ("schedule-uniformity obligations: within every function reachable from Multiply all paths enter the same module functions in the same order; only the documented k=1 shortcut may bypass the ladder", "4 C19"),
 }
+notes = {
+ 'C08': "Assumption: hash_no_x_collision (the two SSWU outputs of one HashToGroup call have different x; the library's affine addition on E' is not complete there) is a precondition no caller can discharge. SHA-256 is an uninterpreted function. ",
+ 'C09': "SHA-256 is an uninterpreted function. ",
+ 'C10': "The obligations are the per-operation refinement conditions (constructors establish the invariant, methods preserve it, frames) plus history lemma programs; the induction over the length of a history is a paper argument. ",
+ 'C16': "No model of goroutines: the obligations are the write frames of every exported function and 'no package-level variable is assigned'; that disjoint write frames and read-only shared arguments imply race freedom is a paper argument. ",
+ 'C17': "The registered-hash precondition is discharged from the package's import graph (go list -deps, default and purego tags, and 'some unconstrained file imports crypto/sha256'); the step from 'linked' to 'registered' is the documented behaviour of crypto/sha256's init. ",
+ 'C18': "crypto/rand.Reader and io.ReadFull are modelled by a ghost stream of 32-byte blocks with an optional read failure. Termination on an all-zero stream is not claimed. ",
+ 'C19': "The observable is the sequence of module-function entries (the property's own observable), not cycles or cache behaviour. ",
+ 'C15': "Slices are modelled per length class with symbolic spare capacity; partial overlap between two different slice arguments is not modelled. ",
+}
 checks=[]
 for pid,(text,ref) in claimed.items():
     checks.append({
@@ -34,17 +44,17 @@ for pid,(text,ref) in claimed.items():
      "replay_cmd_template": "bin/vcheck replay {path}",
      "engine": "vcheck",
      "level_claimed": {"category":"proof","text":"Contract-based deductive verification of the real source: "+text+". Every obligation is an SMT query generated from /repo's current text and discharged by z3/cvc5 for all inputs, aliasings and iterations.","design_ref":"DESIGN.md section "+ref},
-     "level_note": "Trusted: the VC generator's Go semantics (stated subset, 64-bit int), the SMT solvers, the stdlib models reached (math/bits, encoding/binary, crypto/subtle, builtins), and the mathematical lemmas listed per run in the evidence file with their status (lean-proved / assumed).",
+     "level_note": notes.get(pid, "") + "Trusted: the VC generator's Go semantics (stated subset, 64-bit int, whole-object aliasing enumerated), the SMT solvers (raced; thorough runs all three and rejects disagreement), the stdlib models reached (listed per run in the evidence file), and the translation of the SMT-side lemma statements into the Lean theorems that prove them (all lemmas are Lean-proved; status per run in the evidence file). Guards run by the check itself: path-feasibility (vacuity) obligations, baseline of obligation names; thorough adds the must-fail corpus and a bounded contract sweep on the real code.",
      "technique": "contract-based deductive verification (self-built WP/symbolic-execution VC generator over go/ast+go/types, contracts in //go:build verif comment files, z3 4.8/5.1 + cvc5 racing, Lean 4 for the mathematical lemmas)"
     })
-na=[{"property_id":i,"reason":"check not built yet (build round in progress); see DESIGN.md section 4 for the plan"} for i in ids if i not in claimed]
+na=[{"property_id":i,"reason":"no check registered"} for i in ids if i not in claimed]
 m={"version":1,
  "setup_cmd":"bash /verif/setup.sh",
  "hooks":{"guard":"verif","enable":"contracts are comment-only files (contracts_verif.go in each package) behind //go:build verif; the engine parses /repo with the tag on; nothing is compiled into the library","baseline_off_cmd":"cd /repo && GOFLAGS=-mod=mod GOPROXY=off GOSUMDB=off go test -json -vet=off -count=1 -timeout 25m ./...","source_commits":[],"add_only":True},
  "engines":[{"name":"vcheck","path":"/verif/engine","serves_properties":list(claimed.keys()),"kind_free_text":"VC generator + SMT discharge (Go, std library only)"}],
  "checks":checks,
  "not_applicable":na,
- "notes":"Six genuine defects of the pinned tree were repaired by fix: commits (known_findings.json). Build round in progress."}
+ "notes":"Six genuine defects of the pinned tree were repaired by fix: commits (known_findings.json); every property is claimed, none is not-applicable. DESIGN.md section 0 describes the machinery as built."}
 import subprocess
 try:
     out=subprocess.check_output(['git','-C','/repo','log','--format=%h %s'],text=True)
